@@ -8,6 +8,7 @@
 //!
 //! case tls <seed> <i>
 //! pair <T|O> <trusted|otherca|selfsigned|servercert|none> <lib|raw> -> registered|refused:<stage>
+//! pairt <T|O> trusted <lib|raw> other -> ...   (the client trusts the other CA instead)
 //! end
 use crate::net::*;
 use crate::net_srv::{first_reply, frame_of};
@@ -131,6 +132,16 @@ pub async fn run_case(seed: u64, i: u64, out: &mut String) {
                 let r = via_raw(addr, &ca, ident, &ns, &tp).await;
                 let _ = writeln!(out, "pair {} {} raw -> {}", sname, cname, r);
             }
+        }
+        // a second client configuration in the same process: it trusts the OTHER CA (and presents the
+        // trusted client certificate, which both servers accept): it must refuse server T and talk to O
+        let ca_other = other.client("ca.der");
+        for (sname, addr) in [("T", srv_t), ("O", srv_o)] {
+            k += 1;
+            let r = via_lib(addr, &ca_other, &trusted.client("localhost.der"), &trusted.client("localhost.key.der"), &format!("/tls{}x{}/trust{}", seed % 100_000, i, k)).await;
+            let _ = writeln!(out, "pairt {} trusted lib other -> {}", sname, r);
+            let r = via_raw(addr, &ca_other, Some((der(&trusted.client("localhost.der")), der(&trusted.client("localhost.key.der")))), &format!("tls{}x{}", seed % 100_000, i), &format!("trustraw{}", k)).await;
+            let _ = writeln!(out, "pairt {} trusted raw other -> {}", sname, r);
         }
         Ok(())
     }
